@@ -13,6 +13,10 @@ For every corpus reaction generated in both formalisms (<base>_hel / <base>_can)
   * direct form: two chains sharing a symbol that differ only by reversed daughter helicities at
     some nodes must have f_h1 / f_h2 = product of eta = P P1 P2 (-1)^(J-s1-s2) over exactly those
     nodes (eta from the particle table, not from qrules' parity_prefactor)   ("direct")
+  * HISTORIES: one builder walked through naming-flag settings (all flags, both directions, several
+    steps; setters between formulate() calls): the checks above on every model formulated on the
+    way, and every such model must equal the model of a FRESH builder brought to the same flags
+    (helicity and canonical builders)                                        ("history")
   * Clebsch-Gordan reflection (hypothesis CG_flip of the Coq Section) exactly against
     sympy CG(...).doit() for all j <= JMAX                                   ("cgflip")
 
@@ -90,6 +94,67 @@ def strip(expr):
     return e, syms
 
 
+_FRESH = {}
+
+
+def set_flags(builder, fl):
+    """fl = (parent, child[, ls]); ls only exists on the canonical generator"""
+    builder.naming.insert_parent_helicities = fl[0]
+    builder.naming.insert_child_helicities = fl[1]
+    if len(fl) > 2 and hasattr(builder.naming, "insert_ls_combinations"):
+        builder.naming.insert_ls_combinations = fl[2]
+
+
+def fresh_model(rname, fl):
+    """model of a NEW builder brought to the flags before its first formulate()"""
+    import ampform
+
+    key = (rname, tuple(fl))
+    if key not in _FRESH:
+        b = ampform.get_builder(reactions.load(rname))
+        set_flags(b, fl)
+        _FRESH[key] = b.formulate()
+    return _FRESH[key]
+
+
+def model_difference(m, ref):
+    """first difference between two HelicityModels (components, coefficient symbols) or None"""
+    if list(m.components) != list(ref.components) and set(m.components) != set(ref.components):
+        d = sorted(set(m.components) ^ set(ref.components))
+        return f"component names differ, e.g. {d[0]}"
+    for k, e in m.components.items():
+        if e != ref.components[k]:
+            return f"component {k} is {e} but a fresh builder gives {ref.components[k]}"
+    pa, pb = set(map(str, m.parameter_defaults)), set(map(str, ref.parameter_defaults))
+    if pa != pb:
+        d = sorted(pa ^ pb)
+        return f"{len(pa)} parameters but a fresh builder has {len(pb)}, e.g. {d[0]}"
+    if m.intensity != ref.intensity:
+        return "intensity expression differs from a fresh builder's"
+    return None
+
+
+def walk_vs_fresh(rname, walk):
+    """ONE builder walked through naming flags (setters), formulate() after every step; every model
+    must equal the model of a fresh builder brought to the same flags."""
+    import ampform
+
+    b = ampform.get_builder(reactions.load(rname))
+    n, fails = 0, []
+    for k, fl in enumerate(walk):
+        set_flags(b, fl)
+        m = b.formulate()
+        n += 1
+        d = model_difference(m, fresh_model(rname, fl))
+        if d is not None:
+            fails.append({"signature": "history:model differs from a fresh builder's",
+                          "what": f"{rname}: one builder walked through naming flags (parent, child[, ls]) {[list(x) for x in walk[:k + 1]]} with formulate() after "
+                                  f"each step: the last model is not the one a fresh builder with the same flags gives: {d[:500]}",
+                          "case": {"kind": "history_fresh", "base": rname, "walk": [list(x) for x in walk[:k + 1]]}})
+            break
+    return n, fails
+
+
 class Pair:
     """Both models of one reaction, everything that does not depend on the coefficient draw."""
 
@@ -110,9 +175,19 @@ class Pair:
         self.rh = rh
         bh = ampform.get_builder(rh)
         self.steps = []   # (flags, hel chains, groups) of every model formulated on the way
+        self.fresh_fails = []
         for fl in [*self.history, self.flags]:
             bh.naming.insert_parent_helicities, bh.naming.insert_child_helicities = fl
             self.mh = bh.formulate()
+            if self.history:
+                d = model_difference(self.mh, fresh_model(base + "_hel", fl))
+                if d is not None:
+                    k = len(self.steps)
+                    self.fresh_fails.append({"signature": "history:model differs from a fresh builder's",
+                                             "what": f"{base}_hel: one builder walked through naming flags (parent, child) {[list(x) for x in [*self.history, self.flags][:k + 1]]} with "
+                                                     f"formulate() after each step: the last model is not the one a fresh builder with the same flags gives: {d[:500]}",
+                                             "case": {"kind": "history_fresh", "base": base + "_hel",
+                                                      "walk": [list(x) for x in [*self.history, self.flags][:k + 1]]}})
             hel = []
             for t in rh.transitions:
                 name = "A_{" + bh.naming.generate_amplitude_name(t) + "}"
@@ -380,7 +455,7 @@ def run(seed: int, n: int):
     all_flags = [(False, True), (True, True), (False, False), (True, False)]
     hel_bases = [nm[:-4] for nm in reactions.names() if nm.endswith("_hel")]
     hel_bases.sort(key=lambda b: (b not in ("chic0_omegaomega", "jpsi_ksp1750"), b))
-    n_walks = 3 if thorough else 1
+    n_walks = 4 if thorough else 2
     twins = set(bases)
     for b in hel_bases:
         for w in range(-1 if b not in twins else 0, n_walks):
@@ -388,10 +463,15 @@ def run(seed: int, n: int):
                 history = []                      # fresh builder (reactions without a canonical twin)
             elif w == 0:
                 history = [(True, True)]          # 'no sharing first'
+            elif w == 1:
+                history = [(False, True), (True, True), (False, False)]   # sharing first, then flags that remove it
             else:
-                history = [hrng.choice(all_flags) for _ in range(hrng.randint(1, 3))]
+                history = [hrng.choice(all_flags) for _ in range(hrng.randint(2, 4))]
             pair = Pair(b, HEL_FLAGS[0], history=history)
             nd, skipped, f = pair.direct()
+            f = f + pair.fresh_fails
+            kinds["history_vs_fresh_models"] = kinds.get("history_vs_fresh_models", 0) + (len(pair.steps) if history else 0)
+            evaluations += len(pair.steps) if history else 0
             kinds["history_models"] = kinds.get("history_models", 0) + len(pair.steps)
             kinds["history_direct_pairs"] = kinds.get("history_direct_pairs", 0) + nd
             evaluations += nd
@@ -414,9 +494,23 @@ def run(seed: int, n: int):
                     kinds["intensity_points"] += ni
                     evaluations += ni
                     failures += f2
+    # canonical builders: all three flags, both directions, compared with fresh builders step by step
+    can_names = [nm for nm in reactions.names() if nm.endswith("_can")]
+    can_pool = [(a, b_, c) for a in (False, True) for b_ in (False, True) for c in (False, True)]
+    for nm in can_names:
+        walks = [[(False, False, True), (False, True, False), (True, True, False), (False, True, True), (False, False, True)]]
+        if thorough:
+            walks += [[hrng.choice(can_pool) for _ in range(hrng.randint(3, 5))] for _ in range(2)]
+        for walk in walks:
+            k, f = walk_vs_fresh(nm, walk)
+            kinds["history_vs_fresh_models"] = kinds.get("history_vs_fresh_models", 0) + k
+            evaluations += k
+            distinct += k
+            failures += f
     distinct += kinds["direct_pairs"] + kinds["cgflip"]
     # one failure per signature+base is enough
     seen, uniq = set(), []
+    failures.sort(key=lambda f: f["signature"].startswith("history:"))   # sign violations first (stable)
     for f in failures:
         key = (f["signature"], f["case"].get("base"))
         if key not in seen:
@@ -432,6 +526,9 @@ def replay(path: str):
     still = False
     if kind == "cgflip":
         _, f = cg_reflection(max(abs(x) for x in case["args2"]))
+        still = bool(f)
+    elif kind == "history_fresh":
+        _, f = walk_vs_fresh(case["base"], [tuple(x) for x in case["walk"]])
         still = bool(f)
     else:
         pair = Pair(case["base"], tuple(case["flags"]), history=case.get("history", []))
